@@ -236,7 +236,9 @@ func genC06(t *rapid.T) *C06Case {
 			n := rapid.IntRange(0, 2).Draw(t, "clashn")
 			if rapid.Bool().Draw(t, "clashtext") {
 				c.Clash, c.Name = "text", fmt.Sprintf("%s_Text_%d", owner, n)
-				c.File.Tops = append(c.File.Tops, &Top{K: "text", Text: &TextStmt{Name: c.Name, Scope: rapid.SampledFrom([]string{"", "global", "local"}).Draw(t, "clashscope"), Val: &TextVal{Lit: &StrLit{Parts: []string{"user text"}}}}})
+				tx := &Top{K: "text", Text: &TextStmt{Name: c.Name, Scope: rapid.SampledFrom([]string{"", "global", "local"}).Draw(t, "clashscope"), Val: &TextVal{Lit: &StrLit{Parts: []string{"user text"}}}}}
+				pos := rapid.IntRange(0, len(c.File.Tops)).Draw(t, "clashpos") // before or after the script that produces the label
+				c.File.Tops = append(c.File.Tops[:pos], append([]*Top{tx}, c.File.Tops[pos:]...)...)
 			} else {
 				c.Clash, c.Name = "movement", fmt.Sprintf("%s_Movement_%d", owner, n)
 				mv := &Top{K: "movement", Movement: &Movement{Name: c.Name, Scope: rapid.SampledFrom([]string{"", "global", "local"}).Draw(t, "clashscope"), Steps: []*Step{{Name: "walk_up"}}}}
